@@ -1332,6 +1332,34 @@ pub fn run_c11(tier: &str, seed: u64) -> Report {
     let mut rr = Rng::new(seed ^ 0xC11_3E6);
     merged_names_part(&mut report, &mut rr, if tier == "thorough" { 3000 } else { 300 });
   }
+  // shape corpora of C09 and C10 (one syntax form per package): the entrypoint exports the same
+  // names in the emitted module as in the source, and the private declaration nothing refers to
+  // (`Unused`, `kUnused`, `Hidden`) is not in the output
+  {
+    let mut checked = 0u64;
+    for (name, w) in shape_worlds().into_iter().chain(crate::c10::shape_worlds()) {
+      let r = run_fast_check(&w, None, false);
+      let replay = json!({"shape": name, "world": w.describe()});
+      let p = &w.pkgs[0];
+      let url = FcWorld::url(p, "/mod.ts");
+      let Some(FcSlot::Module { text, .. }) = r.slots.get(&url) else { continue };
+      let Some(src) = p.files.iter().find(|(k, _)| k == "/mod.ts").map(|(_, v)| v) else { continue };
+      let (Ok(ps), Ok(pe)) = (fcx::parse(&url, src), fcx::parse(&url, text)) else { continue };
+      report.evaluations += 1;
+      checked += 1;
+      let want = emitted_exports(&fcx::X { src: &ps });
+      let got = emitted_exports(&fcx::X { src: &pe });
+      if want != got {
+        report.fail("oracle", "entrypoint-export-set-changed", format!("{} ({}): source exports {:?}, emitted exports {:?}", url, name, want, got), replay.clone());
+      }
+      for dropped in ["Hidden", "kUnused"] {
+        if src.contains(dropped) && text.contains(dropped) {
+          report.fail("oracle", "unreferenced-private-declaration-emitted", format!("{} ({}): `{}` is referred to by nothing public and is in the output", url, name, dropped), replay.clone());
+        }
+      }
+    }
+    report.count_n("shape-corpus-entrypoints-checked", checked);
+  }
   {
     let mut rr = Rng::new(seed ^ 0xC11_5EB);
     crate::reqs::reqs_part(&mut report, &mut batch, &mut rr, if tier == "thorough" { 20000 } else { 2000 });
